@@ -109,6 +109,7 @@ func run(c *props.Ctx) {
 	round1(c)
 	elemLaws(c)
 	neighbourOps(c, cfg)
+	renum1(c, fns)
 
 	if len(p.Controls) > 0 {
 		for _, n := range []string{"verifControlShapeBadAttr", "verifControlShapeBadIndex", "verifControlShapeBadParam", "verifControlShapeBadRecv", "verifControlShapeBadCond"} {
@@ -239,6 +240,30 @@ func verifControlShapeBadCond(m modeling.Mesh, attribute string, amount vector3.
 }
 
 // neighbourOps: NEIGH-1..4 for the connectivity-based single-attribute operations.
+// renum1: renumber tables hand out ids in the order the attribute arrays are compacted.
+func renum1(c *props.Ctx, fns []*ssa.Function) {
+	p := c.P
+	per := map[string]int{}
+	for _, r := range eng.Renumbers(fns) {
+		if p.IsControl(r.Fn.Pos()) {
+			continue
+		}
+		rel := p.RelFile(r.Fn.Pos())
+		if !(rel == "modeling/mesh.go" || strings.HasPrefix(rel, "modeling/meshops/") || strings.HasPrefix(rel, "modeling/repeat/")) {
+			continue
+		}
+		k := p.FuncName(r.Fn) + "→renumber"
+		per[k]++
+		construct := fmt.Sprintf("%s#%d", k, per[k])
+		if r.OK {
+			c.R.Hold("RENUM-1", construct, p.Pos(ssau.PosOf(r.Store)), r.Detail, "class: "+r.Class)
+		} else {
+			c.R.Violate("RENUM-1", construct, p.Pos(ssau.PosOf(r.Store)), r.Detail)
+		}
+	}
+	c.R.Floor("RENUM-1", 2)
+}
+
 func neighbourOps(c *props.Ctx, cfg eng.ShapeConfig) {
 	p := c.P
 	mp := p.Pkg("modeling")
